@@ -50,6 +50,7 @@ type Obs struct {
 	Blocks   []uint64
 	WAL      litefs.VerifWAL
 	Hidden   bool
+	Ops      []string // model ops issued during this step (Model/PageDB.v alphabet)
 }
 
 type Config struct {
@@ -77,6 +78,7 @@ type Runner struct {
 	contentSeq uint64
 	owner      uint64
 	OpenOpts   []lfs.Option
+	Rec        *lfs.Rec
 }
 
 func New(c *common.Ctx, r *common.Rand, cfg Config) (*Runner, error) {
@@ -104,7 +106,10 @@ func (h *Runner) open() error {
 }
 
 func (h *Runner) newPager() {
-	h.Pager = &lfs.Pager{DB: h.DB, Owner: h.owner, PageSize: h.Cfg.PageSize, Nonce: uint32(h.R.U64()), BigEndianWAL: h.Cfg.BigEndian}
+	if h.Rec == nil {
+		h.Rec = &lfs.Rec{}
+	}
+	h.Pager = &lfs.Pager{Rec: h.Rec, DB: h.DB, Owner: h.owner, PageSize: h.Cfg.PageSize, Nonce: uint32(h.R.U64()), BigEndianWAL: h.Cfg.BigEndian}
 	h.Pager.RestartWAL(uint32(h.R.U64()), uint32(h.R.U64()))
 }
 
@@ -267,6 +272,10 @@ func (h *Runner) Exec(st Step) Obs {
 	ob := Obs{Step: len(h.Steps), Op: st.Op}
 	h.Steps = append(h.Steps, st)
 	exitsBefore := len(h.Node.Exits())
+	if h.Rec == nil {
+		h.Rec = &lfs.Rec{}
+	}
+	h.Rec.Ops = nil
 	var err error
 	ob.Panic = common.Try(func() {
 		switch st.Op {
@@ -356,18 +365,21 @@ func (h *Runner) Exec(st Step) Obs {
 		case "appckpt":
 			err = h.appCheckpoint(st.CkptMode)
 		case "lfsckpt":
+			h.Rec.Checkpoint()
 			err = h.DB.Checkpoint(context.Background())
 			if err == nil {
 				h.Pager.RestartWAL(uint32(h.R.U64()), uint32(h.R.U64()))
 			}
 		case "reopen":
 			h.Node.Close()
+			h.Rec.Open()
 			if err = h.open(); err == nil {
 				if h.DB == nil {
 					err = fmt.Errorf("database missing after reopen")
 				}
 			}
 		case "drop":
+			h.Rec.Drop()
 			err = h.DB.Drop(context.Background())
 			if err == nil {
 				h.Ref = &lfs.Image{PageSize: ps}
@@ -383,6 +395,7 @@ func (h *Runner) Exec(st Step) Obs {
 	if ex := h.Node.Exits(); len(ex) > exitsBefore {
 		ob.Exits = ex[exitsBefore:]
 	}
+	ob.Ops = append([]string(nil), h.Rec.Ops...)
 	h.observe(&ob)
 	h.Obs = append(h.Obs, ob)
 	return ob
@@ -434,10 +447,12 @@ func (h *Runner) appCheckpoint(mode int) error {
 				if err := db.WriteDatabaseAt(ctx, dbf, latest[pg], int64(pg-1)*int64(ps), o); err != nil {
 					return fmt.Errorf("ckpt write page %d: %w", pg, err)
 				}
+				h.Rec.Write(pg, latest[pg])
 			}
 			_ = db.SyncDatabase(ctx)
 			// the database file is cut to the size of the last commit
 			if fi, err := os.Stat(filepath.Join(h.DBDir(), "database")); err == nil && fi.Size() > int64(size)*int64(ps) {
+				h.Rec.Truncate(size)
 				if err := db.TruncateDatabase(ctx, int64(size)*int64(ps)); err != nil {
 					return fmt.Errorf("ckpt truncate: %w", err)
 				}
@@ -449,6 +464,7 @@ func (h *Runner) appCheckpoint(mode int) error {
 			return nil // degrade to FULL
 		}
 		if mode == 3 {
+			h.Rec.WalTruncate()
 			if err := db.TruncateWAL(ctx, 0); err != nil {
 				_ = db.Unlock(ctx, o, []litefs.LockType{litefs.LockTypeWrite})
 				return fmt.Errorf("truncate wal: %w", err)
